@@ -454,3 +454,113 @@ func (in *Interp) atlasComplete(b Value) Value {
 }
 
 var _ = ssa.NewProgram
+
+// ---- inspection of stored blocks (C18) ----
+
+// docLinks: the traversable links (tag 42) of a document, in document order.
+func (in *Interp) docLinks(d *OTerm, out *[]Value) {
+	if d.Ctor == "tag" && d.Args[0].(int) == 42 {
+		// the link bytes are 0x00 ++ cid bytes (castCidToBytes)
+		if b, ok := d.Args[1].(*OTerm); ok && b.Ctor == "bytes" {
+			if v, ok := b.Args[0].(Value); ok && v.R != nil {
+				cells := v.R.(*SliceV).S
+				if len(cells) >= 2 {
+					r := in.cidFromBytes(Value{K: KSlice, R: &SliceV{S: cells[1:]}}).R.([]Value)
+					if r[1].R == nil {
+						*out = append(*out, r[0])
+					}
+				}
+			}
+		}
+		return
+	}
+	for _, a := range d.Args {
+		if t, ok := a.(*OTerm); ok {
+			in.docLinks(t, out)
+		}
+	}
+}
+
+// termContains: does the needle (an opaque unit) occur in the clear inside t? Sealed boxes and digests hide
+// their content (ideal encryption / hashing).
+func (in *Interp) termContains(t *OTerm, needle *OTerm) bool {
+	if t.Ctor == "seal" || t.Ctor == "sha3-256" || t.Ctor == "sig" {
+		return false
+	}
+	if eq := in.otermEq(t, needle); eq.IsConst() && eq.Val == 1 {
+		return true
+	}
+	for _, a := range t.Args {
+		switch x := a.(type) {
+		case *OTerm:
+			if in.termContains(x, needle) {
+				return true
+			}
+		case *Atom:
+			if needle.Ctor == "atom" && len(needle.Args) > 0 && needle.Args[0] == interface{}(x) {
+				return true
+			}
+		case Value:
+			if in.valueContains(x, needle) {
+				return true
+			}
+		}
+	}
+	return false
+}
+
+func (in *Interp) valueContains(v Value, needle *OTerm) bool {
+	var units []ropeUnit
+	switch v.K {
+	case KStr:
+		units = in.ropeUnits(v)
+	case KSlice:
+		units = in.byteUnits(v)
+	}
+	for _, u := range units {
+		if u.o != nil && in.termContains(u.o, needle) {
+			return true
+		}
+	}
+	return false
+}
+
+func init() {
+	intrinsics["(*github.com/ipfs/go-ipld-cbor.Node).Links"] = func(in *Interp, fr *Frame, a []Value) (Value, bool) {
+		var cs []Value
+		in.docLinks(a[0].R.(*Value).R.(*cborNode).doc, &cs)
+		out := make([]Value, len(cs))
+		for i, c := range cs {
+			l := &Value{K: KStruct, R: []Value{mkStr(""), mkInt(0, 64), c}} // format.Link{Name, Size, Cid}
+			out[i] = Value{K: KPtr, R: l}
+		}
+		return Value{K: KSlice, R: &SliceV{S: out}}, true
+	}
+	// bytes.Contains on an opaque document: structural search for an opaque needle (an identifier's bytes/text)
+	intrinsics["bytes.Contains"] = func(in *Interp, fr *Frame, a []Value) (Value, bool) {
+		hay, hok := opaqueOfBytes(a[0])
+		nu := in.byteUnits(a[1])
+		if hok && len(nu) == 1 && nu[0].o != nil {
+			return mkBool(in.termContains(hay, nu[0].o)), true
+		}
+		if hb, ok1 := concBytes(a[0]); ok1 {
+			if nb, ok2 := concBytes(a[1]); ok2 {
+				return mkBool(bytesContains(hb, nb)), true
+			}
+		}
+		if len(nu) == 1 && nu[0].o != nil {
+			return mkBool(in.valueContains(a[0], nu[0].o)), true
+		}
+		unsupported("bytes.Contains on these operands")
+		return Value{}, true
+	}
+}
+
+func bytesContains(h, n []byte) bool {
+	for i := 0; i+len(n) <= len(h); i++ {
+		if string(h[i:i+len(n)]) == string(n) {
+			return true
+		}
+	}
+	return false
+}
